@@ -15,7 +15,10 @@ Model of `pyyeti.nastran.n2p.formrbe3` (property C14), including the `UM_List` v
                             (`solve(rbe3_um, [I, -rbe3_n])`) and for a mixed m-set (`A B C D` blocks);
 * `umPlan`                  the DOF bookkeeping (`mat_intersect`, `index2bool`, `flippv`, the two
                             emptiness tests `dpv_m.size == 0`, `ipv_m.size == 0`) as exact `Nat`-list code;
-* `formRbe3`                everything together on lists (what `Drivers/C14.lean` runs at `Float`).
+* `sortByRow`, `sortRows`   "Sort idof / mdof according to uset" (`mat_intersect(…, usetdof, 2)`);
+* `rbe3Core`                everything after the list packaging, for independent DOF already in uset order;
+* `formRbe3`                `sortByRow` + `rbe3Core` on lists (the `rbe3` request of `Drivers/C14.lean`); the packaging
+                            of `formrbe3`'s own arguments (`Ind_List`, `UM_List`, uset rows) is `Model/CoordRbe3Wrap.lean`.
 
 `solve` is the external kernel `scipy.linalg.solve`: a parameter.  The theorems quantify over every
 exact solver; the `Float` run uses `gaussMx` (Gaussian elimination with partial pivoting).
@@ -259,6 +262,37 @@ def umApply (solve : Solver α) {nd ni : Nat} (hd : 0 < nd)
 
 variable [OfNat α 180] [TransOps α] [LT α] [∀ a b : α, Decidable (a < b)]
 
+/-- "Sort idof according to uset" (`idof[mat_intersect(idof, usetdof, 2)[0]]`): the entries (uset row, payload)
+in uset-row order; entries whose row is not `< nuset` drop out, of entries with the same row the first stays -/
+def sortByRow {γ : Type} (ind : List (Nat × γ)) (nuset : Nat) : List (Nat × γ) :=
+  (positions (ind.map (·.1)) (List.range nuset)).filterMap fun i => ind[i]?
+
+/-- the same for bare rows (`mdof[mat_intersect(mdof, usetdof, 2)[0]]`) -/
+def sortRows (ks : List Nat) (nuset : Nat) : List Nat :=
+  (positions ks (List.range nuset)).filterMap fun i => ks[i]?
+
+/-- `formrbe3` after the list packaging: `ni` independent DOF `indf` already in uset order with uset rows
+`ikeys`; `ddofs` = rows of `T` (0-based, `DOF_dep` digit order) with `dkeys` their uset rows;
+`um` = (number of m-set DOF named by `UM_List`, uset rows of those that are in the table, `UM_List` order).
+`none` where the real code raises. -/
+def rbe3Core (solve : Solver α)
+    (grids : List (GridR α)) (dep : GridR α) (ddofs : List Nat) (dkeys : List Nat)
+    (ni : Nat) (indf : Fin ni → IndDof α) (ikeys : List Nat) (um : Option (Nat × List Nat)) (nuset : Nat) :
+    Option (List (List α)) :=
+  let nd := ddofs.length
+  if h : 0 < ni ∧ 0 < nd ∧ ddofs.all (· < 6) then
+    let dd : Fin nd → Fin 6 := fun i => ⟨ddofs[i] % 6, Nat.mod_lt _ (by decide)⟩
+    let R := (rbe3Grid solve grids dep dd indf).mx
+    match um with
+    | none => some R.toLists
+    | some (umLen, umk) =>
+      if umLen != nd then none else
+      let mdof := sortRows umk nuset
+      match umPlan dkeys ikeys mdof nuset with
+      | none => none
+      | some p => umApply solve h.2.1 h.1 R p
+  else none
+
 /-- `formrbe3` on lists.  `grids` = dependent + independent grids (each once, for `Lc`);
 `ddofs` = dependent components (0-based, `DOF_dep` digit order) with `dkeys` their uset rows;
 `ind` = independent DOF in `Ind_List` order: (uset row, grid, component, weight);
@@ -269,23 +303,9 @@ def formRbe3 (solve : Solver α)
     (ind : List (Nat × IndDof α)) (um : Option (List Nat)) (nuset : Nat) :
     Option (List (List α)) :=
   -- "Sort idof according to uset" (weights travel with their DOF)
-  let pv := positions (ind.map (·.1)) (List.range nuset)
-  let inds := pv.filterMap fun i => ind[i]?
-  let ni := inds.length
-  let nd := ddofs.length
-  if h : 0 < ni ∧ 0 < nd ∧ ddofs.all (· < 6) then
-    let indf : Fin ni → IndDof α := fun k => (inds[k]).2
-    let dd : Fin nd → Fin 6 := fun i => ⟨ddofs[i] % 6, Nat.mod_lt _ (by decide)⟩
-    let R := (rbe3Grid solve grids dep dd indf).mx
-    match um with
-    | none => some R.toLists
-    | some umk =>
-      if umk.length != nd then none else
-      let mdof := (positions umk (List.range nuset)).filterMap fun i => umk[i]?
-      match umPlan dkeys (inds.map (·.1)) mdof nuset with
-      | none => none
-      | some p => umApply solve h.2.1 h.1 R p
-  else none
+  let inds := sortByRow ind nuset
+  rbe3Core solve grids dep ddofs dkeys inds.length (fun k => (inds[k]).2) (inds.map (·.1))
+    (um.map fun umk => (umk.length, umk)) nuset
 
 /-- Gaussian elimination with partial pivoting (the `Float` instance of `solve`) -/
 def gaussTab [Inhabited α] {n k : Nat} (A : Tab α n n) (B : Tab α n k) : Tab α n k :=
